@@ -164,3 +164,9 @@ func ReadReplay(path string, into interface{}) {
 		os.Exit(2)
 	}
 }
+
+// Finish stamps the wall time and emits.
+func Finish(f *Flags, r *Result) {
+	r.WallS = time.Since(f.Start).Seconds()
+	r.Emit()
+}
